@@ -222,3 +222,310 @@ def serializer(res: CheckResult, prog: Program):
             if f.short not in ('MosFile.__str__', 'MosElement.__str__'):
                 others.append(f'{f.short}: {norm(c)}')
     res.add('SERIALIZER', 'package', 'no other serializer', not others, '' if not others else f'other serialisation sites: {others}')
+
+
+# ------------------------------------------------------------------- C10
+def _returned_cls_call(fi: FuncInfo):
+    """The `cls(<readers>, ...)` call returned by a MosCollection.from_* constructor and the expression
+    that produces <readers> (following one level of local assignment)."""
+    assigns = {}
+    for n in ast.walk(fi.node):
+        if isinstance(n, ast.Assign) and len(n.targets) == 1 and isinstance(n.targets[0], ast.Name):
+            assigns.setdefault(n.targets[0].id, []).append(n.value)
+    for r in ast.walk(fi.node):
+        if isinstance(r, ast.Return) and isinstance(r.value, ast.Call) and attr_chain(r.value.func) in ('cls', 'MosCollection'):
+            call = r.value
+            arg = call.args[0] if call.args else next((k.value for k in call.keywords if k.arg == 'mos_readers'), None)
+            src = arg
+            hops = 0
+            while isinstance(src, ast.Name) and src.id in assigns and hops < 4:
+                if len(assigns[src.id]) != 1:
+                    return call, None
+                src = assigns[src.id][0]
+                hops += 1
+            return call, src
+    return None, None
+
+
+def sorted_ctors(res: CheckResult, prog: Program):
+    res.rules['SORTED-CTORS'] = 'each MosCollection.from_* passes to cls(...) the result of sorted(<all constructed readers>) with no key/reverse'
+    res.rules['CTOR-ARGS'] = 'each MosCollection.from_* forwards allow_incomplete and builds its readers with the matching MosReader.from_*'
+    pairs = {'from_files': 'from_file', 'from_strings': 'from_string', 'from_s3': 'from_s3'}
+    for name, reader_ctor in pairs.items():
+        fi = prog.func('MosCollection.' + name)
+        call, src = _returned_cls_call(fi)
+        if call is None:
+            res.error(f'SORTED-CTORS: {fi.short} does not return cls(...) (idiom not recognised)')
+            continue
+        ok = isinstance(src, ast.Call) and attr_chain(src.func) == 'sorted' and len(src.args) == 1
+        detail = '' if ok else f'the readers passed to cls(...) are {norm(src) if src is not None else "?"}: not the result of sorted(...)'
+        if ok:
+            for k in src.keywords:
+                if k.arg == 'key' or (k.arg == 'reverse' and not (isinstance(k.value, ast.Constant) and k.value.value is False)):
+                    ok, detail = False, f'sorted() is called with {k.arg}=: the order is no longer ascending message id'
+        if ok:
+            inner = src.args[0]
+            if any(isinstance(x, ast.Slice) for x in ast.walk(inner)) or calls_in(inner, lambda c: attr_chain(c.func) in ('reversed', 'set', 'filter')):
+                ok, detail = False, 'the list handed to sorted() is sliced or filtered'
+            made = calls_in(inner, lambda c: attr_chain(c.func) == 'MosReader.' + reader_ctor)
+            res.add('CTOR-ARGS', fi.short, f'readers built with MosReader.{reader_ctor}', bool(made),
+                    '' if made else f'the readers are not built with MosReader.{reader_ctor}', fi.file, fi.node.lineno)
+        res.add('SORTED-CTORS', fi.short, 'cls(sorted([...readers...]), ...)', ok, detail, fi.file, call.lineno)
+        fwd = [k for k in call.keywords if k.arg == 'allow_incomplete']
+        ok2 = len(fwd) == 1 and attr_chain(fwd[0].value) == 'allow_incomplete'
+        res.add('CTOR-ARGS', fi.short, 'allow_incomplete=allow_incomplete', ok2, '' if ok2 else 'allow_incomplete is not forwarded unchanged', fi.file, call.lineno)
+
+
+def lt_numeric(res: CheckResult, prog: Program):
+    res.rules['LT-NUMERIC'] = 'MosReader.__lt__ and MosFile.__lt__ compare message_id with <, both classes use total_ordering'
+    res.rules['ID-IS-INT'] = 'MosFile.message_id passes through int(); MosReader stores and returns that value unchanged'
+    for cname in ('MosReader', 'MosFile'):
+        ci = prog.cls(cname)
+        fi = ci.methods.get('__lt__')
+        if fi is None:
+            res.error(f'anchor vanished: {cname}.__lt__')
+            continue
+        rets = [r for r in ast.walk(fi.node) if isinstance(r, ast.Return) and r.value is not None]
+        other = fi.node.args.args[1].arg if len(fi.node.args.args) > 1 else 'other'
+        ok = False
+        if len(rets) == 1 and isinstance(rets[0].value, ast.Compare) and len(rets[0].value.ops) == 1:
+            c = rets[0].value
+            l, r = attr_chain(c.left), attr_chain(c.comparators[0])
+            ids = {f'self.message_id', f'self._message_id'}
+            oids = {f'{other}.message_id', f'{other}._message_id'}
+            ok = (isinstance(c.ops[0], ast.Lt) and l in ids and r in oids) or (isinstance(c.ops[0], ast.Gt) and l in oids and r in ids)
+        res.add('LT-NUMERIC', fi.short, 'return self.message_id < other.message_id', ok,
+                '' if ok else f'__lt__ is {norm(rets[0].value) if rets else "?"}', fi.file, fi.node.lineno)
+        dec = 'total_ordering' in ci.decorators or 'functools.total_ordering' in ci.decorators
+        res.add('LT-NUMERIC', cname, '@total_ordering', dec, '' if dec else f'{cname} lost @total_ordering', fi.file, ci.node.lineno)
+    fi = prog.func('MosFile.message_id')
+    rets = [r for r in ast.walk(fi.node) if isinstance(r, ast.Return) and r.value is not None]
+    ok = bool(rets) and all(isinstance(r.value, ast.Call) and attr_chain(r.value.func) == 'int' and 'messageID' in norm(r.value) for r in rets)
+    res.add('ID-IS-INT', fi.short, "return int(<messageID text>)", ok, '' if ok else 'message_id is not converted with int(): ids would sort as text (10 < 9)', fi.file, fi.node.lineno)
+    init = prog.func('MosReader.__init__')
+    mo = init.node.args.args[1].arg
+    ok = any(isinstance(n, ast.Assign) and attr_chain(n.targets[0]) == 'self._message_id' and attr_chain(n.value) == f'{mo}.message_id' for n in ast.walk(init.node))
+    res.add('ID-IS-INT', init.short, 'self._message_id = mo.message_id', ok, '' if ok else 'the reader does not store the message id unchanged', init.file, init.node.lineno)
+    g = prog.func('MosReader.message_id')
+    rets = [r for r in ast.walk(g.node) if isinstance(r, ast.Return) and r.value is not None]
+    ok = len(rets) == 1 and attr_chain(rets[0].value) == 'self._message_id'
+    res.add('ID-IS-INT', g.short, 'return self._message_id', ok, '' if ok else 'MosReader.message_id does not return the stored id', g.file, g.node.lineno)
+
+
+def order_preserved(res: CheckResult, prog: Program):
+    res.rules['ORDER-PRESERVED'] = 'between construction and the fold the reader list is only filtered by order-preserving comprehensions'
+    ci = prog.cls('MosCollection')
+    for name, fi in ci.methods.items():
+        if name.startswith('from_'):
+            continue
+        bad = calls_in(fi.node, lambda c: attr_chain(c.func) in ('sorted', 'reversed', 'set', 'frozenset', 'random.shuffle')
+                       or (isinstance(c.func, ast.Attribute) and c.func.attr in ('sort', 'reverse')))
+        stores = [n for n in ast.walk(fi.node) if isinstance(n, ast.Assign) and any(attr_chain(t) == 'self._mos_readers' for t in n.targets)]
+        if stores or bad or name in ('_validate', 'merge', '__init__'):
+            ok = not bad
+            for s in stores:
+                if not isinstance(s.value, (ast.ListComp, ast.Name, ast.Attribute)):
+                    ok = False
+                if isinstance(s.value, ast.ListComp) and (len(s.value.generators) != 1 or attr_chain(s.value.generators[0].iter) not in ('self.mos_readers', 'self._mos_readers')):
+                    ok = False
+            res.add('ORDER-PRESERVED', fi.short, 'no re-ordering of self._mos_readers', ok,
+                    '' if ok else f'{fi.short} re-orders or rebuilds the reader list: {[norm(b) for b in bad] or [norm(s) for s in stores]}', fi.file, fi.node.lineno)
+
+
+# ------------------------------------------------------------------- C18
+def restore_pair(res: CheckResult, prog: Program):
+    res.rules['RESTORE-PAIR'] = 'MosReader.from_X restores with mo.__class__.from_X for the same X and exactly the arguments given to MosFile.from_X, in order'
+    res.rules['READER-FIELDS'] = 'the reader records mo.message_id / mo.ro_id / mo.__class__ and each public property returns the matching field'
+    for x in ('from_file', 'from_string', 'from_s3'):
+        fi = prog.func('MosReader.' + x)
+        params = [a.arg for a in fi.node.args.args[1:]]
+        made = calls_in(fi.node, lambda c: attr_chain(c.func) == 'MosFile.' + x)
+        ret = [c for c in calls_in(fi.node, lambda c: attr_chain(c.func) == 'cls')]
+        ok, detail = True, ''
+        if len(made) != 1 or len(ret) != 1:
+            res.error(f'RESTORE-PAIR: {fi.short} idiom not recognised')
+            continue
+        used = [attr_chain(a) for a in made[0].args] + [attr_chain(k.value) for k in made[0].keywords]
+        if used != params:
+            ok, detail = False, f'MosFile.{x} is called with {used}, parameters are {params}'
+        kw = {k.arg: k.value for k in ret[0].keywords}
+        fn = attr_chain(kw.get('restore_fn')) if 'restore_fn' in kw else (attr_chain(ret[0].args[1]) if len(ret[0].args) > 1 else '')
+        argsv = kw.get('restore_args') if 'restore_args' in kw else (ret[0].args[2] if len(ret[0].args) > 2 else None)
+        mo = attr_chain(ret[0].args[0]) if ret[0].args else attr_chain(kw.get('mo'))
+        if fn not in (f'{mo}.__class__.{x}', f'type({mo}).{x}'):
+            ok, detail = False, f'restore_fn is {fn}: not the {x} constructor of the classified class'
+        if not (isinstance(argsv, ast.Tuple) and [attr_chain(e) for e in argsv.elts] == params):
+            ok, detail = False, f'restore_args is {norm(argsv) if argsv is not None else "?"}: not exactly ({", ".join(params)})'
+        res.add('RESTORE-PAIR', fi.short, f'cls(mo, restore_fn=mo.__class__.{x}, restore_args=({", ".join(params)},))', ok, detail, fi.file, fi.node.lineno)
+    init = prog.func('MosReader.__init__')
+    mo = init.node.args.args[1].arg
+    want = {'self._message_id': f'{mo}.message_id', 'self._ro_id': f'{mo}.ro_id', 'self._mos_type': f'{mo}.__class__',
+            'self._restore_fn': 'restore_fn', 'self._restore_args': 'restore_args'}
+    got = {attr_chain(n.targets[0]): attr_chain(n.value) for n in ast.walk(init.node) if isinstance(n, ast.Assign) and len(n.targets) == 1}
+    for k, v in want.items():
+        ok = got.get(k) in (v, v.replace('.__class__', '') if False else v) or (k == 'self._mos_type' and got.get(k) == f'type({mo})')
+        res.add('READER-FIELDS', init.short, f'{k} = {v}', ok, '' if ok else f'{k} is assigned {got.get(k)}', init.file, init.node.lineno)
+    for prop, fld in (('message_id', 'self._message_id'), ('ro_id', 'self._ro_id'), ('mos_type', 'self._mos_type')):
+        g = prog.func('MosReader.' + prop)
+        rets = [r for r in ast.walk(g.node) if isinstance(r, ast.Return) and r.value is not None]
+        ok = len(rets) == 1 and attr_chain(rets[0].value) == fld
+        res.add('READER-FIELDS', g.short, f'return {fld}', ok, '' if ok else f'{g.short} returns {norm(rets[0].value) if rets else "?"}', g.file, g.node.lineno)
+
+
+def all_pages(res: CheckResult, prog: Program):
+    res.rules['ALL-PAGES'] = 'get_mos_files visits every page and every key: no break/return inside the page or key loops, the only filter is endswith(suffix), prefix None becomes the empty string and is forwarded'
+    res.rules['S3-DELEGATES'] = 'get_file_contents returns the object body read() unmodified'
+    fi = prog.func('utils.s3:get_mos_files')
+    loops = [n for n in ast.walk(fi.node) if isinstance(n, ast.For)]
+    if len(loops) < 2:
+        res.error('ALL-PAGES: page/key loops not found in get_mos_files')
+        return
+    page = loops[0]
+    exits = [n for n in ast.walk(page) if isinstance(n, (ast.Break, ast.Return))]
+    res.add('ALL-PAGES', fi.short, 'page loop and key loop have no break/return', not exits,
+            '' if not exits else f'{type(exits[0]).__name__.lower()} at line {exits[0].lineno} ends the listing early: keys of later pages are lost', fi.file, page.lineno)
+    pag = calls_in(page.iter, lambda c: attr_chain(c.func).endswith('.paginate'))
+    ok = bool(pag) and any(k.arg == 'Prefix' and attr_chain(k.value) == 'prefix' for k in pag[0].keywords) \
+        and any(k.arg == 'Bucket' and attr_chain(k.value) == 'bucket_name' for k in pag[0].keywords)
+    res.add('ALL-PAGES', fi.short, 'paginate(Bucket=bucket_name, Prefix=prefix)', ok, '' if ok else 'bucket/prefix are not forwarded to the paginator', fi.file, page.lineno)
+    conds = [n for n in ast.walk(page) if isinstance(n, ast.If)]
+    ok = len(conds) == 1 and attr_chain(conds[0].test) == 'key.endswith(suffix)' and not conds[0].orelse \
+        and any('append' in norm(s) for s in conds[0].body)
+    res.add('ALL-PAGES', fi.short, 'if key.endswith(suffix): files.append(key)', ok,
+            '' if ok else f'keys are filtered by {[norm(c.test) for c in conds]}', fi.file, page.lineno)
+    none_fix = any(isinstance(n, ast.If) and 'prefix is None' in norm(n.test) and "prefix = ''" in norm(n.body[0]) for n in fi.node.body)
+    res.add('ALL-PAGES', fi.short, "prefix None -> ''", none_fix, '' if none_fix else 'a None prefix is not normalised to the empty string', fi.file, fi.node.lineno)
+    rets = [r for r in ast.walk(fi.node) if isinstance(r, ast.Return) and r.value is not None]
+    ok = len(rets) == 1 and isinstance(rets[0].value, ast.Name)
+    res.add('ALL-PAGES', fi.short, 'returns the accumulated list', ok, '' if ok else 'the accumulated key list is not returned as is', fi.file, fi.node.lineno)
+    g = prog.func('utils.s3:get_file_contents')
+    rets = [r for r in ast.walk(g.node) if isinstance(r, ast.Return) and r.value is not None]
+    ok = len(rets) == 1 and norm(rets[0].value).endswith('.read()')
+    res.add('S3-DELEGATES', g.short, 'return <Body>.read()', ok, '' if ok else 'the downloaded body is transformed before it is parsed', g.file, g.node.lineno)
+
+
+def collection_ctor_siblings(res: CheckResult, prog: Program):
+    res.rules['COLL-SIBLINGS'] = 'the three MosCollection constructors have the same pipeline (reader per input, drop None, sorted, cls(..., allow_incomplete=...)) and differ only in the reader constructor'
+
+    def shape(fi, reader_ctor):
+        call, src = _returned_cls_call(fi)
+        if call is None or src is None:
+            return None
+        t = norm(src)
+        t = t.replace('MosReader.' + reader_ctor, 'MosReader.CTOR')
+        import re
+        t = re.sub(r'CTOR\([^)]*\)', 'CTOR(X)', t)
+        t = re.sub(r'for (\w+) in (\w+)\]', 'for V in INPUTS]', t)
+        return t + ' | ' + ', '.join(sorted(f'{k.arg}={norm(k.value)}' for k in call.keywords))
+    shapes = {n: shape(prog.func('MosCollection.' + n), r) for n, r in (('from_files', 'from_file'), ('from_strings', 'from_string'), ('from_s3', 'from_s3'))}
+    vals = set(shapes.values())
+    ok = len(vals) == 1 and None not in vals
+    res.add('COLL-SIBLINGS', 'MosCollection.from_*', 'same pipeline in from_files / from_strings / from_s3', ok, '' if ok else f'the constructors differ: {shapes}')
+
+
+# ------------------------------------------------------------------- C19
+def cli_rules(res: CheckResult, prog: Program, from_file_raises, inspect_ok: bool):
+    hier = ExcHier(prog)
+    res.rules.update({
+        'LOOP-CONTAIN': 'in both per-file loops of detect_or_inspect every exception MosFile.from_* can raise is caught inside the loop and the loop continues',
+        'FLAG-PLUMB': 'allow_incomplete=self._args.incomplete reaches all collection constructors; strict = not self._args.non_strict reaches mc.merge(strict=...)',
+        'OUTPUT-EXACT': 'the -o file receives str(mc) and stdout receives mc, untransformed',
+        'EXIT-MAP': 'CLI.__call__ maps any exception to a message on stderr and status 2; do_merge returns 2 with a message on InvalidMosCollection',
+    })
+    fi = prog.func('CLI.detect_or_inspect')
+    loops = [n for n in ast.walk(fi.node) if isinstance(n, ast.For)]
+    found = 0
+    for lp in loops:
+        ctor = [c for c in calls_in(lp, lambda c: attr_chain(c.func).startswith('MosFile.from_'))]
+        if not ctor:
+            continue
+        found += 1
+        which = attr_chain(ctor[0].func).split('.')[-1]
+        tries = [t for t in lp.body if isinstance(t, ast.Try) and calls_in(t, lambda c: c is ctor[0])]
+        need = set(from_file_raises) if which == 'from_file' else {'MosInvalidXML', 'UnknownMosFileType'}
+        ok, detail = bool(tries), 'the constructor call is not inside a try within the loop'
+        if tries:
+            caught = []
+            for h in tries[0].handlers:
+                if h.type is None:
+                    caught.append('BaseException')
+                else:
+                    caught += [e.attr if isinstance(e, ast.Attribute) else getattr(e, 'id', '?') for e in (h.type.elts if isinstance(h.type, ast.Tuple) else [h.type])]
+                if not any(isinstance(s, ast.Continue) for s in h.body):
+                    ok, detail = False, 'a handler does not continue with the next file'
+            missing = [x for x in sorted(need) if not any(hier.isa(x, c) for c in caught)]
+            if missing:
+                ok, detail = False, f'{missing} raised by MosFile.{which} is not caught inside the loop: one bad or unreadable file aborts the remaining files'
+            elif ok:
+                detail = ''
+        res.add('LOOP-CONTAIN', fi.short, f'try: MosFile.{which}(...) inside the per-file loop', ok, detail, fi.file, lp.lineno)
+        order_ok = attr_chain(lp.iter) in ('self._args.files', 'mos_file_keys')
+        res.add('LOOP-CONTAIN', fi.short, f'for ... in {attr_chain(lp.iter)} (argument order)', order_ok, '' if order_ok else 'files are not processed in argument order', fi.file, lp.lineno)
+        insp = calls_in(lp, lambda c: attr_chain(c.func).endswith('.inspect'))
+        det = calls_in(lp, lambda c: attr_chain(c.func) == 'self.detect_file')
+        res.add('LOOP-CONTAIN', fi.short, 'detect_file then (if inspect) mo.inspect()', bool(det) and bool(insp), '' if det and insp else 'detect/inspect calls missing from the loop', fi.file, lp.lineno)
+    if found < 2:
+        res.error('LOOP-CONTAIN: the two per-file loops of detect_or_inspect were not found')
+    res.add('LOOP-CONTAIN', 'inspect()', 'no inspect() can raise for a classifiable message (C20 INSPECT-TOTAL)', inspect_ok,
+            '' if inspect_ok else 'an inspect() method has an exceptional exit: mosromgr inspect aborts on that message')
+    # flags
+    parser = prog.func('CLI._get_parser')
+    flags = {}
+    for c in calls_in(parser.node, lambda c: attr_chain(c.func).endswith('.add_argument')):
+        names = [a.value for a in c.args if isinstance(a, ast.Constant)]
+        act = next((k.value.value for k in c.keywords if k.arg == 'action' and isinstance(k.value, ast.Constant)), None)
+        for n in names:
+            flags[n] = act
+    ok = flags.get('--incomplete') == 'store_true' and flags.get('--non-strict') == 'store_true'
+    res.add('FLAG-PLUMB', parser.short, '--incomplete / --non-strict are store_true flags', ok, '' if ok else f'flag definitions: incomplete={flags.get("--incomplete")}, non-strict={flags.get("--non-strict")}', parser.file, parser.node.lineno)
+    dm = prog.func('CLI.do_merge')
+    ctors = calls_in(dm.node, lambda c: attr_chain(c.func).startswith('MosCollection.from_'))
+    for c in ctors:
+        kw = {k.arg: attr_chain(k.value) for k in c.keywords}
+        ok = kw.get('allow_incomplete') == 'self._args.incomplete'
+        res.add('FLAG-PLUMB', dm.short, f'{attr_chain(c.func)}(allow_incomplete=self._args.incomplete)', ok,
+                '' if ok else f'allow_incomplete is {kw.get("allow_incomplete")}', dm.file, c.lineno)
+    if len(ctors) < 2:
+        res.error('FLAG-PLUMB: collection constructors not found in do_merge')
+    merges = calls_in(dm.node, lambda c: attr_chain(c.func) == 'mc.merge')
+    assigns = {attr_chain(n.targets[0]): norm(n.value) for n in ast.walk(dm.node) if isinstance(n, ast.Assign) and len(n.targets) == 1}
+    ok = len(merges) == 1 and len(merges[0].keywords) == 1 and merges[0].keywords[0].arg == 'strict'
+    if ok:
+        v = attr_chain(merges[0].keywords[0].value)
+        v = assigns.get(v, v)
+        ok = v == 'not self._args.non_strict'
+    res.add('FLAG-PLUMB', dm.short, 'mc.merge(strict=not self._args.non_strict)', ok, '' if ok else 'the strict flag does not reach mc.merge as "not --non-strict"', dm.file, dm.node.lineno)
+    # output
+    writes = calls_in(dm.node, lambda c: attr_chain(c.func).endswith('.write') and attr_chain(c.func) != 'sys.stderr.write')
+    ok = len(writes) == 1 and len(writes[0].args) == 1 and norm(writes[0].args[0]) == 'str(mc)'
+    res.add('OUTPUT-EXACT', dm.short, 'f.write(str(mc))', ok, '' if ok else f'the output file receives {[norm(w) for w in writes]}', dm.file, dm.node.lineno)
+    opens = calls_in(dm.node, lambda c: attr_chain(c.func) == 'open')
+    ok = len(opens) == 1 and attr_chain(opens[0].args[0]) == 'self._args.outfile' and len(opens[0].args) > 1 and isinstance(opens[0].args[1], ast.Constant) and opens[0].args[1].value == 'w'
+    res.add('OUTPUT-EXACT', dm.short, "open(self._args.outfile, 'w')", ok, '' if ok else 'the -o file is not opened for (over)writing at the given path', dm.file, dm.node.lineno)
+    prints = [c for c in calls_in(dm.node, lambda c: attr_chain(c.func) == 'print') if any(norm(a) in ('mc', 'str(mc)') for a in c.args)]
+    ok = len(prints) == 1 and len(prints[0].args) == 1 and not prints[0].keywords
+    res.add('OUTPUT-EXACT', dm.short, 'print(mc)', ok, '' if ok else 'stdout does not receive exactly the merged collection', dm.file, dm.node.lineno)
+    # exit map
+    call = prog.func('CLI.__call__')
+    tries = [n for n in ast.walk(call.node) if isinstance(n, ast.Try)]
+    ok = False
+    if tries:
+        t = tries[0]
+        h = t.handlers[0] if t.handlers else None
+        names = [] if h is None or h.type is None else [e.attr if isinstance(e, ast.Attribute) else getattr(e, 'id', '?') for e in (h.type.elts if isinstance(h.type, ast.Tuple) else [h.type])]
+        ok = h is not None and (h.type is None or any(n in ('Exception', 'BaseException') for n in names)) \
+            and any(isinstance(s, ast.Return) and isinstance(s.value, ast.Constant) and s.value.value == 2 for s in h.body) \
+            and bool(calls_in(h, lambda c: attr_chain(c.func) == 'sys.stderr.write')) \
+            and any(isinstance(s, ast.Return) and 'self._args.func()' in norm(s) for s in t.body)
+    res.add('EXIT-MAP', call.short, 'try: return self._args.func() except Exception: stderr + return 2', ok, '' if ok else 'the top-level error mapping is not "message on stderr, status 2"', call.file, call.node.lineno)
+    tries = [n for n in ast.walk(dm.node) if isinstance(n, ast.Try)]
+    ok = False
+    for t in tries:
+        for h in t.handlers:
+            names = [] if h.type is None else [e.attr if isinstance(e, ast.Attribute) else getattr(e, 'id', '?') for e in (h.type.elts if isinstance(h.type, ast.Tuple) else [h.type])]
+            if any(hier.isa('InvalidMosCollection', n) for n in names):
+                ok = any(isinstance(s, ast.Return) and isinstance(s.value, ast.Constant) and s.value.value == 2 for s in h.body) \
+                    and bool(calls_in(h, lambda c: attr_chain(c.func) == 'sys.stderr.write'))
+    res.add('EXIT-MAP', dm.short, 'except InvalidMosCollection: stderr + return 2', ok, '' if ok else 'an invalid collection is not reported on stderr with status 2', dm.file, dm.node.lineno)
+    rets = [r for r in ast.walk(dm.node) if isinstance(r, ast.Return) and r.value is not None and not (isinstance(r.value, ast.Constant) and r.value.value == 2)]
+    res.add('EXIT-MAP', dm.short, 'success path returns None (status 0)', not rets, '' if not rets else f'do_merge returns {[norm(r.value) for r in rets]} on success', dm.file, dm.node.lineno)
